@@ -1,6 +1,7 @@
 use crate::infra::{Run, Violation};
 use serde_json::Value;
 
+pub mod c01;
 pub mod c02;
 pub mod c03;
 pub mod c05;
@@ -11,6 +12,7 @@ pub mod c12;
 pub mod c13;
 pub mod c14;
 pub mod c15;
+pub mod c17;
 pub mod c19;
 pub mod c20;
 pub mod cfgcheck;
@@ -25,6 +27,7 @@ pub struct Entry {
 
 pub fn lookup(id: &str) -> Option<Entry> {
     Some(match id {
+        "C01" => Entry { level: "exploration", run: c01::run, replay: c01::replay },
         "C02" => Entry { level: "fault_enumeration", run: c02::run, replay: c02::replay },
         "C03" => Entry { level: "model_checking", run: c03::run, replay: c03::replay },
         "C05" => Entry { level: "model_checking", run: c05::run, replay: c05::replay },
@@ -35,6 +38,7 @@ pub fn lookup(id: &str) -> Option<Entry> {
         "C14" => Entry { level: "model_checking", run: c14::run, replay: c14::replay },
         "C15" => Entry { level: "exploration", run: c15::run, replay: c15::replay },
         "C16" => Entry { level: "exploration", run: c16::run, replay: c16::replay },
+        "C17" => Entry { level: "model_checking", run: c17::run, replay: c17::replay },
         "C19" => Entry { level: "model_checking", run: c19::run, replay: c19::replay },
         "C20" => Entry { level: "model_checking", run: c20::run, replay: c20::replay },
         _ => return None,
